@@ -211,7 +211,7 @@ def component_cases(ctx: Ctx):
         comp, fns = make_rough_component(rng, nx, na, ny, levels, kpl)
         mx = (2,) * na + tuple(levels)
         names = [f'x{k}' for k in range(nx)]
-        reused = rng.random() < 0.25
+        reused = rng.random() < 0.25 or n % 6 == 3      # (always for every sixth component)
         if reused:
             # an earlier life of the same object: trained, evaluated (train and test mode), cleared, and the model replaced: nothing of it may
             # survive into the surrogate that is built next
@@ -228,6 +228,12 @@ def component_cases(ctx: Ctx):
         for mode in ('train', 'test'):
             iset = comp.active_set if mode == 'train' else comp.active_set.union(comp.candidate_set)
             tree = comp.misc_coeff_train if mode == 'train' else comp.misc_coeff_test
+            # the weights the prediction sums with are those of the set in use (inclusion-exclusion), not leftovers of an earlier life of the object
+            from p_misc import ie_value, tree_items
+            S_ = {tuple(a_) + tuple(b_) for a_, b_ in iset}
+            got_w = dict(tree_items(tree))
+            if {k_: v_ for k_, v_ in got_w.items() if v_ != 0} != {k_: ie_value(S_, k_) for k_ in S_ if ie_value(S_, k_) != 0}:
+                ctx.violate('C05:weights-not-those-of-the-set-in-use', f'{mode}-mode weights {sorted(got_w.items())} for the set {sorted(S_)}', case0); continue
             # terms rebuilt from the component's grids/weights and fresh model calls
             terms_by_out = [[] for _ in range(ny)]
             plain = []
